@@ -459,7 +459,8 @@ class PlanJoinTablesQuery:
         columns_map = {}
 
         def _check_conditions(node, **kwargs):
-            if not isinstance(node, BinaryOperation):
+            # only an equality maps a model column to a table column
+            if not isinstance(node, BinaryOperation) or node.op != '=':
                 return
 
             arg1, arg2 = node.args
@@ -482,7 +483,16 @@ class PlanJoinTablesQuery:
             # exclude condition
             node.args = [Constant(0), Constant(0)]
 
-        query_traversal(model_table.join_condition, _check_conditions)
+        # ... and only as a top-level conjunct of the ON clause (not under NOT / OR)
+        def _top_level_conjuncts(node):
+            if isinstance(node, BinaryOperation) and node.op.lower() == 'and':
+                for arg in node.args:
+                    yield from _top_level_conjuncts(arg)
+            elif node is not None:
+                yield node
+
+        for node in _top_level_conjuncts(model_table.join_condition):
+            _check_conditions(node)
         return columns_map
 
     def get_filters_from_join_conditions(self, fetch_table):
